@@ -16,7 +16,65 @@ SHARD_TIMEOUT = {"quick": 240, "thorough": 1500}
 
 
 def plan(tier, seed):
-    return sse.scheme_shards(tier, per_scheme_quick=2, per_scheme_thorough=3, budget_quick=12, budget_thorough=220)
+    specs = sse.scheme_shards(tier, per_scheme_quick=2, per_scheme_thorough=3, budget_quick=12, budget_thorough=220)
+    # one index, one scheme object, more than 2^16 searches (whatever counts searches must not wrap or fill up)
+    for sch in (["CJJ14.PiBas", "DP17.Pi", "CJJ14.Pi2Lev"] if tier == "quick" else gen.SCHEMES):
+        specs.append({"name": f"marathon-{gen.SHORT[sch]}", "kind": "marathon", "scheme": sch,
+                      "searches": 66000, "budget_s": 200 if tier == "quick" else 900})
+    return specs
+
+
+def run_marathon(spec, acc, ctx):
+    scheme = spec["scheme"]
+    short = gen.SHORT[scheme]
+    rng = ctx.rng
+    cfg = gen.default_config(scheme)
+    if scheme == "CGKO06.SSE1":
+        cfg.update(param_s=256, param_dictionary_size=64)
+    lens = [1] * 30 + [2, 3, 2, 1, 4]
+    try:
+        db, info = gen.db_from_lens(rng, scheme, cfg, lens, "marathon")
+        L = sse.loader(scheme)
+        sch = L.SSEScheme(cfg)
+        key = sch.KeyGen()
+        edb = sch.EDBSetup(key, copy.deepcopy(db))
+        edb_bytes = edb.serialize()
+        words = list(db) + [w for w, _ in gen.absent_keywords(rng, db, gen.caps(scheme, cfg)["kw_limit"], 3, 3)]
+        tokens = {w: sch.TokenGen(key, w) for w in words}
+        base = {w: norm(scheme, sch.Search(L.SSEEncryptedDatabase.deserialize(edb_bytes, L.SSEConfig(cfg)),
+                                           tokens[w]).get_result_list()) for w in words}
+    except Exception as e:
+        acc.note(f"{short}: marathon setup failed {exc_site(e)}")
+        acc.count("setup_failed")
+        return
+    acc.count("cases")
+    acc.count("cases." + short)
+    acc.count("histories")
+    acc.count("histories." + short)
+    case = sse.case_desc(scheme, "default", cfg, "marathon", db)
+    n = 0
+    for n in range(1, spec["searches"] + 1):
+        if n % 512 == 0 and ctx.out_of_time():
+            break
+        w = words[(n * 7 + n // 41) % len(words)]
+        try:
+            got = norm(scheme, sch.Search(edb, tokens[w] if n % 3 else sch.TokenGen(key, w)).get_result_list())
+        except Exception as e:
+            acc.violation(f"{short}:history-search-raised:{exc_site(e)}", f"search #{n} on one index raised "
+                                                                          f"{type(e).__name__}: {e}", dict(case, searches=n))
+            return
+        if got != base[w]:
+            acc.violation(f"{short}:history-result-differs", f"search #{n} on one index returned {len(got)} ids, the "
+                                                             f"single-search answer has {len(base[w])}", dict(case, searches=n))
+            return
+    acc.count("marathon_searches", n)
+    acc.count("history_searches", n)
+    acc.count("repeated_searches", max(0, n - len(words)))
+    if edb.serialize() != edb_bytes:
+        acc.violation(f"{short}:edb-mutated", f"EDB.serialize() differs after {n} searches", dict(case, searches=n))
+        return
+    acc.add("distinct", sse.case_fp(scheme, "marathon", db))
+    acc.add("marathon_schemes", scheme)
 
 
 def norm(scheme, r):
@@ -139,6 +197,9 @@ def run_case(scheme, cid, cfg, cls, db, acc, rng, use_module_default=False):
 
 
 def run_shard(spec, acc, ctx):
+    if spec.get("kind") == "marathon":
+        run_marathon(spec, acc, ctx)
+        return
     scheme = spec["scheme"]
     short = gen.SHORT[scheme]
     first = True
@@ -189,6 +250,8 @@ def finish(m, tier, seed):
             inc.append(f"{short}: only {per[short]['histories']} histories")
     if c.get("setup_failed", 0) + c.get("baseline_failed", 0) > 0.2 * max(1, c.get("cases", 0)):
         inc.append("too many setups/baselines failed")
+    if c.get("marathon_searches", 0) < 66000:
+        inc.append("no history of more than 2^16 searches completed")
     if c.get("long_histories", 0) < 20:
         inc.append(f"only {c.get('long_histories', 0)} long histories")
     if c.get("repeated_searches", 0) < 500:
@@ -207,6 +270,7 @@ def finish(m, tier, seed):
         "history_searches": c.get("history_searches", 0),
         "repeated_searches": c.get("repeated_searches", 0),
         "long_histories_over_more_than_30_distinct_keywords": c.get("long_histories", 0),
+        "searches_in_histories_of_66000_on_one_index": c.get("marathon_searches", 0),
         "edb_byte_comparisons": c.get("intact.edb_checked", 0),
         "module_default_config_passed_by_reference": c.get("module_default_passed", 0),
         "setup_failed": c.get("setup_failed", 0),
